@@ -22,9 +22,9 @@ TWO = ('EAStorySwap', 'EAItemSwap')
 ONE = ('roStoryMove', 'roStorySend')
 
 
-def mk(op, k, tk, pretty, T=60, repeats=False, long_body=False):
+def mk(op, k, tk, pretty, T=60, repeats=False, long_body=False, post_merge=False):
     level, has_t, has_src, has_new = OPS[op]
-    P = {'op': op, 'k': k, 'tk': tk, 'pretty': pretty, 'long_body': long_body}
+    P = {'op': op, 'k': k, 'tk': tk, 'pretty': pretty, 'long_body': long_body, 'post_merge': post_merge}
     sym = [('u%d' % j, 'str') for j in range(k)]
     strs = [n for n, _ in sym]
     free = []
@@ -40,7 +40,8 @@ def mk(op, k, tk, pretty, T=60, repeats=False, long_body=False):
     sym += [('c0', 'str'), ('c1', 'str')]
     pre = str_pre(strs + free + ['c0', 'c1']) + distinct(strs)
     cid = 'C20/%s/k%d%s/%s%s' % (op, k, ('/t-' + tk) if has_t else '', 'indented' if pretty else 'compact',
-                                 '/ids-may-repeat' if repeats else '') + ('/long-body' if long_body else '')
+                                 '/ids-may-repeat' if repeats else '') + ('/long-body' if long_body else '') + \
+        ('/after-merge-and-edits' if post_merge else '')
     return Cell(pid=PID, cid=cid, harness='h_msgacc:msgacc_cell', params=P, sym=sym, pre=pre, stubs=('hash',),
                 timeout=T, cost=k)
 
@@ -64,6 +65,7 @@ def cells(tier):
             out.append(mk(op, 2 if op in TWO else 3, 'present' if has_t else None, False, T=T, repeats=True))
     out.append(mk('roStorySend', 1, None, False, T=T, long_body=True))
     out.append(mk('roStorySend', 1, None, True, T=T, long_body=True))
+    out.append(mk('roStorySend', 1, None, False, T=T, long_body=True, post_merge=True))
     for op in ('roMetadataReplace', 'roReplace', 'roDelete', 'roReadyToAir', 'roCreate'):
         for pretty in (False, True):
             sym = [('u0', 'str'), ('u1', 'str'), ('c0', 'str'), ('r0', 'str')]
